@@ -284,6 +284,13 @@ pub fn run(tier: &str) -> Result<Report, String> {
                 lists.push(v);
             }
         }
+        // lists of four and five with every repetition pattern over three / four distinct formulae ([A, B, A, C], [A, A, B, C, B], ...)
+        for pat in [[0usize, 1, 0, 2, 9], [0, 1, 1, 2, 9], [0, 1, 2, 0, 9], [0, 1, 2, 1, 9], [0, 0, 1, 2, 9], [0, 1, 0, 2, 1], [0, 1, 0, 1, 2], [0, 0, 1, 1, 2], [0, 1, 2, 0, 3], [0, 1, 0, 2, 3]] {
+            for base in 0..n {
+                let v: Vec<usize> = pat.iter().filter(|x| **x != 9).map(|x| (base + x * 3) % n).collect();
+                lists.push(v);
+            }
+        }
         let bad: Vec<Violation> = lists
             .par_iter()
             .filter_map(|l| {
